@@ -209,27 +209,46 @@ func keyWire(fd protoreflect.FieldDescriptor, k protoreflect.MapKey) []byte {
 	return nil
 }
 
+// nilMapEntry names one entry of a message-valued map field of the top-level message whose Go value is a
+// nil pointer. A protoreflect message cannot hold such an entry, so it travels next to the reference value;
+// the model sees it as an entry whose value position holds the "unset" token: `{ <key> _ } u-`.
+type nilMapEntry struct {
+	fd  protoreflect.FieldDescriptor
+	key protoreflect.MapKey
+}
+
 func (ms *modelSchema) valueTokens(m protoreflect.Message, out *[]string) {
+	ms.valueTokensNil(m, nil, out)
+}
+
+// valueTokensNil renders m; nilEnt (may be nil) is an additional nil-valued entry of one of m's own map fields.
+func (ms *modelSchema) valueTokensNil(m protoreflect.Message, nilEnt *nilMapEntry, out *[]string) {
 	*out = append(*out, "{")
 	for _, fd := range visitOrder(m.Descriptor()) {
 		switch {
 		case fd.IsMap():
 			mp := m.Get(fd).Map()
 			type ent struct {
-				kw []byte
-				k  protoreflect.MapKey
-				v  protoreflect.Value
+				kw    []byte
+				k     protoreflect.MapKey
+				v     protoreflect.Value
+				isNil bool
 			}
 			var es []ent
 			mp.Range(func(k protoreflect.MapKey, v protoreflect.Value) bool {
-				es = append(es, ent{keyWire(fd.MapKey(), k), k, v})
+				es = append(es, ent{keyWire(fd.MapKey(), k), k, v, false})
 				return true
 			})
+			if nilEnt != nil && nilEnt.fd.Number() == fd.Number() && fd.MapValue().Message() != nil && !mp.Has(nilEnt.key) {
+				es = append(es, ent{keyWire(fd.MapKey(), nilEnt.key), nilEnt.key, protoreflect.Value{}, true})
+			}
 			sort.Slice(es, func(i, j int) bool { return bytes.Compare(es[i].kw, es[j].kw) < 0 })
 			*out = append(*out, "[")
 			for _, e := range es {
 				*out = append(*out, "{", ms.scalarToken(fd.MapKey(), e.k.Value()))
-				if fd.MapValue().Message() != nil {
+				if e.isNil {
+					*out = append(*out, "_") // nil pointer in value position
+				} else if fd.MapValue().Message() != nil {
 					ms.valueTokens(e.v.Message(), out)
 				} else {
 					*out = append(*out, ms.scalarToken(fd.MapValue(), e.v))
@@ -268,8 +287,13 @@ func (ms *modelSchema) valueTokens(m protoreflect.Message, out *[]string) {
 }
 
 func (ms *modelSchema) value(m protoreflect.Message) string {
+	return ms.valueNil(m, nil)
+}
+
+// valueNil: the value of m plus (nilEnt != nil) one nil-valued entry of one of its message-valued maps.
+func (ms *modelSchema) valueNil(m protoreflect.Message, nilEnt *nilMapEntry) string {
 	var toks []string
-	ms.valueTokens(m, &toks)
+	ms.valueTokensNil(m, nilEnt, &toks)
 	return strings.Join(toks, " ")
 }
 
@@ -354,8 +378,10 @@ func modelSchemaFor(md protoreflect.MessageDescriptor) *modelSchema {
 	return s
 }
 
-// modelMarshal sends one marshal case to the Lean model; impl is what the generated code did.
-func modelMarshal(md protoreflect.MessageDescriptor, ref protoreflect.Message, size int, b []byte, merr error, panicked bool) {
+// modelMarshal sends one marshal case to the Lean model; impl is what the generated code did. nilEnt (may be
+// nil): the Go message marshaled additionally holds that nil-valued map entry, which ref cannot express — the
+// model is asked about the value WITH the entry.
+func modelMarshal(md protoreflect.MessageDescriptor, ref protoreflect.Message, nilEnt *nilMapEntry, size int, b []byte, merr error, panicked bool) {
 	ms := modelSchemaFor(md)
 	if !ms.ok || usesUnmodelled(ref) {
 		Extra("model-skipped-unmodelled-feature", 1)
@@ -368,7 +394,10 @@ func modelMarshal(md protoreflect.MessageDescriptor, ref protoreflect.Message, s
 	case merr != nil:
 		impl = fmt.Sprintf("size=%d err", size)
 	}
-	Model("gen-marshal", "G marshal ; "+ms.text+" ; 0 ; "+ms.value(ref), impl)
+	if nilEnt != nil {
+		Extra("model-asked-with-nil-valued-map-entry", 1)
+	}
+	Model("gen-marshal", "G marshal ; "+ms.text+" ; 0 ; "+ms.valueNil(ref, nilEnt), impl)
 }
 
 // modelUnmarshal sends one unmarshal case to the Lean model; impl is what the generated code did.
